@@ -9,7 +9,7 @@ typed items
   register_skeleton   cmd_register: names type check / reply-encodability check / add loop / return
   tcp_client_timeout_ms  default timeout of TCPRegistryClient
   cmd_lookup_guarded, remove_notifies_only_present, tcp_accepted_timeout,
-  reply_dump_guarded, register_validates_reply, tcp_recv_closes_unanswered
+  reply_dump_guarded, register_validates_reply, tcp_recv_closes_unanswered, register_requires_self_equal
                       the facts the model takes as parameters (re-derived in Gallina from the
                       skeletons; proofs/RegistryP.v proves that both derivations agree)
 shape items (snapshot in expected/registry.json): every other method of the three server classes.
@@ -154,6 +154,10 @@ def _register_skeleton(fn):
             out.append("GJoinCheck")        # the eager join is the only type check on names
         elif t in ("brine.dump(((host, port),))", "brine.dump(((host, port),),)"):
             out.append("GReplyCheck")
+        elif isinstance(st, ast.If) and not st.orelse and len(st.body) == 1 and isinstance(st.body[0], ast.Raise) \
+                and ast.unparse(st.test) in ("brine.load(brine.dump(((host, port),))) != ((host, port),)",
+                                            "not brine.load(brine.dump(((host, port),))) == ((host, port),)"):
+            out.append("GRoundTripCheck")   # encodes like GReplyCheck, then compares the address with a copy of itself
         elif t == "for name in names:\n    self._add_service(name.upper(), (host, port))":
             out.append("GAddLoop")
         elif t == "return 'OK'":
@@ -163,7 +167,7 @@ def _register_skeleton(fn):
         else:
             raise Unrecognised("cmd_register statement: " + t[:80])
     if out not in (["GJoinCheck", "GAddLoop", "GReturnOK"], ["GJoinCheck", "GReplyCheck", "GAddLoop", "GReturnOK"],
-                   ["GReplyCheck", "GJoinCheck", "GAddLoop", "GReturnOK"]):
+                   ["GReplyCheck", "GJoinCheck", "GAddLoop", "GReturnOK"], ["GJoinCheck", "GRoundTripCheck", "GAddLoop", "GReturnOK"]):
         raise Unrecognised("cmd_register statement order")
     return out
 
@@ -385,7 +389,8 @@ def translate(repo):
     def register():
         k = _register_skeleton(find_func(base, "cmd_register"))
         return [typed("register_skeleton", "list gstmt", coq_list(k)),
-                typed("register_validates_reply", "bool", coq_bool("GReplyCheck" in k))]
+                typed("register_validates_reply", "bool", coq_bool("GReplyCheck" in k or "GRoundTripCheck" in k)),
+                typed("register_requires_self_equal", "bool", coq_bool("GRoundTripCheck" in k))]
     guarded(register)
 
     # shapes of everything the typed items do not cover
